@@ -146,6 +146,24 @@ def spec(tier, seed):
         }
     }
     """)
+    tq = b.file("rusty_parser/src/core/type_qualifier.rs", "rusty_parser", "core::type_qualifier")
+    b.add(tq, "vk_c13_suffix_characters", """
+        // the five suffix characters denote the five types, one to one
+        let k: u8 = kani::any();
+        kani::assume(k < 5);
+        let q = match k { 0 => TypeQualifier::BangSingle, 1 => TypeQualifier::HashDouble, 2 => TypeQualifier::DollarString,
+                          3 => TypeQualifier::PercentInteger, _ => TypeQualifier::AmpersandLong };
+        let want = match k { 0 => '!', 1 => '#', 2 => '$', 3 => '%', _ => '&' };
+        let ch = char::from(q);
+        assert!(ch == want);
+        match TypeQualifier::try_from(ch) { Ok(back) => assert!(back == q), Err(e) => { std::mem::forget(e); assert!(false); } }
+        let j: u8 = kani::any();
+        kani::assume(j < 5 && j != k);
+        let other = match j { 0 => TypeQualifier::BangSingle, 1 => TypeQualifier::HashDouble, 2 => TypeQualifier::DollarString,
+                              3 => TypeQualifier::PercentInteger, _ => TypeQualifier::AmpersandLong };
+        assert!(char::from(other) != ch && other != q);
+        """, unwind=2, exhaustive=True, cost=5, bounds="all five type suffixes",
+          functions=["rusty_parser::TypeQualifier::try_from(char)", "rusty_parser::From<TypeQualifier> for char"])
     return b.build(
         tier,
         bounds="sequences of 1..3 DEFtype arguments (quick) / 1..6 (thorough), letters and types symbolic; set() on statements of 1 (quick) / 2 arguments; two-letter names",
